@@ -162,11 +162,81 @@ def build(tier):
                                            z3.BoolVal(len(w.fields["optimizer"].state) == 1))
     P.contract(WRAP + "OptimizerWrapper.load_state_dict", variant="standalone", setup=wsetup, params={}, requires=[], frame_fields=False,
                ensures=["wl_post(self)"], replay="c07:roundtrip")
+    # ---- save side: get_checkpoint_dict writes exactly the layout load_checkpoint reads, from the agent's own objects
+    class NetS(C01.NetM):
+        """network with a constructor description and a state dict"""
+
+        def __init__(self, name):
+            C01.NetM.__init__(self, name)
+            self.sd = {"w": self.w}
+            self.idict = {"arch": self.arch}
+
+        def getattr(self, ex, st, name):
+            if name == "init_dict":
+                return self.idict
+            if name == "state_dict":
+                return Fn(model=lambda ex, st, a, k: self.sd, name=name)
+            if name == "__class__":
+                return ("class-of", self.name)
+            return C01.NetM.getattr(self, ex, st, name)
+    live = {}
+
+    def save_setup(ex, st, fr):
+        live.clear()
+        agent = Obj(BASE, label="agent")
+        nets = {n: NetS(n) for n in names}
+        w = Obj(WRAP + "OptimizerWrapper", label="optimizer")
+        opt = OptimG([(("params-of", nets["actor"]), z3.Real("own.group_lr"))])
+        opt.state = [C01.TensorT(z3.Real("own.exp_avg"))]
+        w.fields.update(dict(optimizer=opt, multiagent=False, lr=z3.Real("own.lr"), networks=[nets["actor"]], network_names=["actor"], lr_name="lr",
+                             optimizer_kwargs={}, optimizer_cls=ModRef("torch.optim.Adam")))
+        plain = {"lr": z3.Real("own.lr"), "fitness": [z3.Real("own.fit0")], "steps": [z3.Int("own.steps")], "index": z3.Int("own.index"), "accelerator": None,
+                 "lr_scheduler": None}
+        agent.fields.update(dict(nets))
+        agent.fields.update(dict(optimizer=w, lr_scheduler=None,
+                                 evolvable_attributes=Fn(model=lambda ex, st, a, k: (list(names) if k.get("networks_only") else list(names) + ["optimizer"]),
+                                                         name="evolvable_attributes")))
+        live.update(dict(agent=agent, nets=nets, w=w, opt=opt, plain=plain))
+        P.lib[BASE + ".inspect_attributes"] = lambda ex, st, a, k: dict(plain)
+        st.locals["agent"] = agent
+    P.lib["importlib.metadata.version"] = lambda ex, st, a, k: "version"
+    P.lib["collections.OrderedDict"] = lambda ex, st, a, k: dict(a[0]) if a else {}
+
+    def saved_post(res):
+        if not isinstance(res, dict) or "network_info" not in res:
+            return z3.BoolVal(False)
+        ni = res["network_info"]
+        ok = ni.get("network_names") == list(names) and ni.get("optimizer_names") == ["optimizer"]
+        mods, opts = ni.get("modules", {}), ni.get("optimizers", {})
+        out = []
+        for n in names:
+            net = live["nets"][n]
+            ok = ok and mods.get(f"{n}_cls") == ("class-of", n) and mods.get(f"{n}_init_dict") is net.idict
+            sd = mods.get(f"{n}_state_dict")
+            ok = ok and isinstance(sd, dict) and set(sd) == {"w"}
+            if ok:
+                out.append(sd["w"].val == net.w.val)                                   # ITS OWN weights under ITS OWN key
+        ok = ok and opts.get("optimizer_cls") == "Adam" and opts.get("optimizer_networks") == ["actor"] and opts.get("optimizer_lr") == "lr" \
+            and opts.get("optimizer_multiagent") is False
+        osd = opts.get("optimizer_state_dict")
+        ok = ok and isinstance(osd, dict) and len(osd.get("state", [])) == 1
+        if not ok:
+            import os
+            if os.environ.get("PYVC_DEBUG"):
+                print("saved_post debug:", {k: (v if not isinstance(v, dict) else list(v)) for k, v in ni.items()}, mods, opts)
+            return z3.BoolVal(False)
+        out += [osd["state"][0].val == z3.Real("own.exp_avg"), z3ify(osd["param_groups"][0]) == z3.Real("own.group_lr"),
+                z3ify(res["lr"]) == z3.Real("own.lr"), z3ify(res["index"]) == z3.Int("own.index"), z3.BoolVal("accelerator" not in res),
+                z3.BoolVal("lr_scheduler" not in res)]
+        return z3.And(*out)
+    P.specns["saved_post"] = saved_post
+    P.contract("agilerl.algorithms.core.base.get_checkpoint_dict", setup=save_setup, params={}, requires=[], frame_fields=False,
+               ensures=["saved_post(result)"], replay="c07:roundtrip")
     P.native.append(dict(name="roundtrip", adapter="c07:roundtrip", payload={"mode": "search"},
                          bound="CQN, DDPG, TD3 (share_encoders=False), DQN: learn, mutate (architecture + lr), learn, save; load() and load_checkpoint(); "
                                "weights incl. targets, optimizer state and settings, bookkeeping, greedy actions; 3 further learn steps on both"))
     P.trusted += ["torch.save/torch.load(dill) return a value-faithful copy of the saved dictionary", "identity/optimizer model of C01; torch.optim constructor contract"]
-    P.assumptions += ["checkpoint layout as written by get_checkpoint_dict (two networks with prefixing names, one optimizer); multi-agent lists not covered"]
-    P.uncovered += ["get_checkpoint_dict (save side) and EvolvableAlgorithm.load (class-method path): native adapter only",
+    P.assumptions += ["checkpoint layout of two networks with prefixing names and one optimizer (get_checkpoint_dict is proved to write exactly the keys load_checkpoint reads); multi-agent lists not covered"]
+    P.uncovered += ["EvolvableAlgorithm.load (class-method path): native adapter only",
                     "behavioural equivalence after loading (greedy actions, continued learning): bounded native", "crash points while saving"]
     return P
